@@ -35,6 +35,12 @@ pub struct MasterScript {
     /// goes on as usual
     #[serde(default)]
     pub lower_port: bool,
+    /// from this interval on the master announces `steps_late` instead of `steps` (a known master
+    /// that starts reporting stepsRemoved >= 255, or returns from it); 0 = never
+    #[serde(default)]
+    pub late_from: u32,
+    #[serde(default)]
+    pub steps_late: u16,
 }
 
 #[derive(Clone, Debug, serde::Serialize, serde::Deserialize)]
@@ -72,7 +78,7 @@ pub fn run_case(rep: &mut Report, case: &Case, verbose: bool) -> bool {
     // events
     #[derive(Clone)]
     enum Ev {
-        Ann { master: usize, seq: u16 },
+        Ann { master: usize, seq: u16, steps: u16 },
         Bmca,
     }
     let mut evs: Vec<(u64, u32, Ev)> = vec![];
@@ -90,6 +96,7 @@ pub fn run_case(rep: &mut Report, case: &Case, verbose: bool) -> bool {
                 n = n.wrapping_add(1);
             }
         }
+        let steps_at = |t: u64| if m.late_from > 0 && t / TICKS_PER_I >= m.late_from as u64 { m.steps_late } else { m.steps };
         match m.mode {
             1 => {
                 let dup: Vec<_> = frames.iter().map(|(t, s)| (*t, *s)).collect();
@@ -116,7 +123,7 @@ pub fn run_case(rep: &mut Report, case: &Case, verbose: bool) -> bool {
             _ => {}
         }
         for (t, s) in frames {
-            evs.push((t, order, Ev::Ann { master: mi, seq: s }));
+            evs.push((t, order, Ev::Ann { master: mi, seq: s, steps: steps_at(t) }));
             order += 1;
         }
     }
@@ -126,20 +133,20 @@ pub fn run_case(rep: &mut Report, case: &Case, verbose: bool) -> bool {
     let mut snaps: Vec<Snap> = vec![];
     for (t, _, ev) in evs {
         match ev {
-            Ev::Ann { master, seq } => {
+            Ev::Ann { master, seq, steps } => {
                 let m = &case.masters[master];
                 let src = Src { pid: pids[master], domain: 0, sdo: 0, minor_version: 1 };
                 let mut body = AnnounceBody::default();
                 body.gm_identity = clock_id(m.id).0;
                 body.gm_priority1 = m.p1;
-                body.steps_removed = m.steps;
+                body.steps_removed = steps;
                 let msg = src.announce(seq, body);
                 if let Err(p) = node.call(0, Call::GeneralRx(msg.encode())) {
                     rep.violation(&format!("C06|panic|{}|{}", p.site(), p.class()), &format!("announce receive panicked: {}", p.describe()), replay.clone());
                     return false;
                 }
                 rep.ev("announce_receipt");
-                receipts.push(Receipt { t, master, qualifying: m.steps < 255 && !m.own_identity });
+                receipts.push(Receipt { t, master, qualifying: steps < 255 && !m.own_identity });
             }
             Ev::Bmca => {
                 if let Err(p) = node.bmca() {
@@ -170,7 +177,7 @@ pub fn run_case(rep: &mut Report, case: &Case, verbose: bool) -> bool {
                 Some(mi) => {
                     let m = &case.masters[mi];
                     // N1: two receipts within the window
-                    let n = receipts.iter().filter(|r| r.master == mi && r.t <= s.t && s.t - r.t < window).count();
+                    let n = receipts.iter().filter(|r| r.master == mi && r.qualifying && r.t <= s.t && s.t - r.t < window).count();
                     if n < 2 {
                         rep.violation(
                             "C06|N1|parent-with-fewer-than-two-receipts-in-window",
@@ -185,7 +192,7 @@ pub fn run_case(rep: &mut Report, case: &Case, verbose: bool) -> bool {
                         }
                     }
                     // N2
-                    if m.steps >= 255 {
+                    if m.steps >= 255 && (m.late_from == 0 || m.steps_late >= 255) {
                         rep.violation("C06|N2|steps-removed-255", &format!("t={}: Slave of a master announcing stepsRemoved {}", s.t, m.steps), replay.clone());
                     }
                     if m.own_identity {
@@ -200,7 +207,7 @@ pub fn run_case(rep: &mut Report, case: &Case, verbose: bool) -> bool {
             // some master must be qualified
             let any = (0..case.masters.len()).any(|mi| {
                 let m = &case.masters[mi];
-                m.steps < 255 && !m.own_identity && receipts.iter().filter(|r| r.master == mi && r.t <= s.t && s.t - r.t < window).count() >= 2
+                !m.own_identity && receipts.iter().filter(|r| r.master == mi && r.qualifying && r.t <= s.t && s.t - r.t < window).count() >= 2
             });
             // a lower-numbered port of the own instance heard within the last two intervals keeps
             // the port out of the master state by itself
@@ -233,7 +240,7 @@ pub fn run_case(rep: &mut Report, case: &Case, verbose: bool) -> bool {
     // L2: a steadily announcing best master is never dropped. Judged for the best (lowest p1)
     // master among those that are well-formed; "steadily" = present in every interval from k0 on.
     if case.own_class >= 128 && case.masters.len() <= 8 {
-        let wellformed: Vec<usize> = (0..case.masters.len()).filter(|&i| case.masters[i].steps < 255 && !case.masters[i].own_identity && case.masters[i].mode == 0).collect();
+        let wellformed: Vec<usize> = (0..case.masters.len()).filter(|&i| case.masters[i].steps < 255 && case.masters[i].late_from == 0 && !case.masters[i].own_identity && case.masters[i].mode == 0).collect();
         for &mi in &wellformed {
             let m = &case.masters[mi];
             // first interval from which the master is present in every interval until the end
@@ -253,7 +260,7 @@ pub fn run_case(rep: &mut Report, case: &Case, verbose: bool) -> bool {
                 .masters
                 .iter()
                 .enumerate()
-                .filter(|(j, o)| *j != mi && o.p1 < m.p1 && o.steps < 255 && !o.own_identity)
+                .filter(|(j, o)| *j != mi && o.p1 < m.p1 && (o.steps < 255 || (o.late_from > 0 && o.steps_late < 255)) && !o.own_identity)
                 .map(|(j, _)| receipts.iter().filter(|r| r.master == j).map(|r| r.t).max().map(|t| t + 6 * TICKS_PER_I).unwrap_or(0))
                 .max()
                 .unwrap_or(0);
@@ -294,7 +301,7 @@ pub fn run_case(rep: &mut Report, case: &Case, verbose: bool) -> bool {
 
 fn single(pattern: u32, phase: u64, offset: u64, seq_base: u16, seed: u64) -> Case {
     Case {
-        masters: vec![MasterScript { id: 0x10, p1: 100, pattern, offset, seq_base, steps: 0, mode: 0, own_identity: false, lower_port: false }],
+        masters: vec![MasterScript { id: 0x10, p1: 100, pattern, offset, seq_base, steps: 0, mode: 0, own_identity: false, lower_port: false, late_from: 0, steps_late: 0 }],
         intervals: 16,
         bmca_phase: phase,
         own_class: 248,
@@ -381,6 +388,8 @@ pub fn run(rep: &mut Report, tier: &str, seed: u64, shard: (u32, u32), replay: O
                 mode: [0u8, 0, 0, 1, 2, 3][rng.gen_range(0..6)],
                 own_identity: rng.gen_bool(0.05),
                 lower_port: false,
+                late_from: if rng.gen_bool(0.15) { rng.gen_range(2..12) } else { 0 },
+                steps_late: [255u16, 256, 65535, 300, 0, 254][rng.gen_range(0..6)],
             });
         }
         if rng.gen_bool(0.15) {
@@ -395,6 +404,8 @@ pub fn run(rep: &mut Report, tier: &str, seed: u64, shard: (u32, u32), replay: O
                 mode: 0,
                 own_identity: true,
                 lower_port: true,
+                late_from: 0,
+                steps_late: 0,
             });
         }
         let case = Case { masters, intervals: 16, bmca_phase: phases[rng.gen_range(0..4)], own_class: if rng.gen_bool(0.25) { 6 } else { 248 }, seed: rng.gen() };
